@@ -27,9 +27,10 @@ def hx(v, key="frame"):
     return "".join(c.upper() if r.random() < 0.5 else c for c in s)
 
 
-class CallTimeout(Exception):
+class CallTimeout(BaseException):
     """a library call did not come back within VERIF_CALL_TIMEOUT seconds (default 120; a normal call takes milliseconds to a
-    few seconds): recorded like any other exception type escaping, i.e. the call is not total"""
+    few seconds): recorded like any other exception type escaping, i.e. the call is not total.  A BaseException, re-raised every
+    5 s, so that neither `except Exception` nor a bare `except:` inside the library can swallow it for good"""
 
 
 _TIMEOUTS = {"n": 0}
